@@ -15,6 +15,7 @@ import ProfiVerif.Lemmas.ColdStart
 import ProfiVerif.Lemmas.ColdStartSolo
 import ProfiVerif.Lemmas.ListenLearn
 import ProfiVerif.Lemmas.ListenNet
+import ProfiVerif.Lemmas.ColdStartDuo
 
 namespace PV.C06
 open PV
@@ -1039,5 +1040,76 @@ example := listener_poll_on_bus cfgR 1000 3 0 busS 1066 1 nsL5' (TokenRing.new 5
   (by decide) (by decide) 100 (by decide) (by decide)
   (fun t ht => by simp only [busS, List.mem_singleton] at ht; subst ht; decide)
   (fun t ht => by simp only [busS, List.getLast?_singleton, Option.some.injEq] at ht; subst ht; decide)
+
+/-! ## Cold start of TWO stations on the bus, up to the poll of the listener's address -/
+
+/-- One poll of the listener / of the claimant while the claimant forms its ring and the listener overhears it with
+arbitrary lag (`Duo`). -/
+theorem cold_start_listener_poll (cfg : Cfg) (hok : cfg.Ok) (G : Nat) (n : Net) (x y : Nat) (stx sty : NetStation) (l : Int)
+    (stage : SStage) (r0 : TokenRing) (hd : List Telegram) (tl : Int) (d : Duo cfg G n x y stx sty l stage r0 hd tl)
+    (now : Int) (htl : tl ≤ now) (hown : n.bus.seen.getD y 0 < now) (hgx : now ≤ n.bus.seen.getD x 0 + (cfg.P : Nat)) :
+    ∃ n' inc c sty' hd', n.poll y now = (n', inc, some (.ok c)) ∧ c.tx = none ∧
+      Duo cfg G n' x y stx sty' l stage r0 hd' now :=
+  duo_listen d hok now htl hown hgx
+
+theorem cold_start_claimant_poll (cfg : Cfg) (hok : cfg.Ok) (hP100 : cfg.P ≤ 100000) (G : Nat) (hG : cfg.slot + 3 * cfg.P ≤ G)
+    (n : Net) (x y : Nat) (stx sty : NetStation) (l : Int) (stage : SStage) (r0 : TokenRing) (hd : List Telegram) (tl : Int)
+    (d : Duo cfg G n x y stx sty l stage r0 hd tl) (B : Int)
+    (hB : max (n.bus.seen.getD x 0) (l + ((stage.wait cfg : Nat) : Int)) +
+      ((stage.rest cfg stx.s.p.address stx.s.p.hsa : Nat) : Int) ≤ B)
+    (now : Int) (htl : tl ≤ now) (hown : n.bus.seen.getD x 0 < now) (hgx : now ≤ n.bus.seen.getD x 0 + (cfg.P : Nat))
+    (hgy : now ≤ n.bus.seen.getD y 0 + (cfg.P : Nat)) :
+    ∃ n' c, n.poll x now = (n', [], some (.ok c)) ∧ now ≤ B ∧ DuoOut cfg G x y stx sty r0 hd B n' c now :=
+  duo_claimant d hok hP100 hG B hB now htl hown hgx hgy
+
+/-- **Cold start of two stations on the bus, phases (a1)–(a3) up to the poll of the listener's address** (C02 "the
+ring forms", two stations).  Two station models on the byte-accurate bus of `Model/Net.lean`, both online in
+`ListenToken` on a bus on which nothing has been transmitted (`CS2`), stamps `lx`, `ly`; station `x`'s token-lost
+time-out runs out first, with the stagger `lx + Tto_x + P + ⌈11 bit⌉ < ly + Tto_y` (two slot times per address by
+`claim_staggered`); both polled at least every `P` µs (`2 + 2P + bits 33 + ⌈11 bit⌉ ≤ Tslot`, `P ≤ 100 ms`); the
+listener's time-out exceeds the longest silence of the claimant, `Tslot + 3P ≤ G`, `G + ⌈11 bit⌉ + 2 ≤ Tto_y`.
+Then (`TwoRun`, `DuoRun`): every poll returns regularly; nobody transmits before `T = lx + Tto_x`; `x` claims at its
+first poll at or after `T` (≤ `T + P`); from then on the listener `y` NEVER transmits — it neither claims nor
+answers — whatever its lag behind the bus, while `x` transmits only its second claim token and GAP requests to
+third addresses, each of its polls no later than `formTime` after the claim, until it sends the GAP request to the
+listener's address (or, if that address is not below HSA, completes its one-station ring).  The listener's ring
+view follows the overheard tokens (`Duo` / `LLOk`: `hearAll`).  What follows the poll of the listener's address —
+its reply, the rest of the sweep, the admission — is not proved. -/
+theorem two_station_cold_start_until_polled (cfg : Cfg) (hok : cfg.Ok) (hP100 : cfg.P ≤ 100000) (G : Nat)
+    (hG : cfg.slot + 3 * cfg.P ≤ G) (x y : Nat) (stx sty : NetStation) (lx ly : Int)
+    (hGy : G + cfg.ce 0 + 2 ≤ sty.s.p.tokenLostTimeout) (hne : stx.s.p.address ≠ sty.s.p.address)
+    (hsync : cfg.b33 < stx.s.p.tokenLostTimeout)
+    (hv : RingView [stx.s.p.address] stx.s.p.address stx.s.ring.claimToken)
+    (hstag : lx + (stx.s.p.tokenLostTimeout : Nat) + (cfg.P : Nat) + ((cfg.ce 0 : Nat) : Int) < ly + (sty.s.p.tokenLostTimeout : Nat))
+    (evs : List (Nat × Int)) (n : Net) (tl : Int) (h : CS2 cfg n x y stx sty lx ly) (hN : n.stations.length = 2)
+    (hsx : n.bus.seen.getD x 0 < lx + (stx.s.p.tokenLostTimeout : Nat)) (hsy : n.bus.seen.getD y 0 ≤ tl)
+    (hs : SchedN cfg.P n tl evs) :
+    TwoRun x y stx.s.p.address sty.s.p.address (lx + (stx.s.p.tokenLostTimeout : Nat))
+      (lx + (stx.s.p.tokenLostTimeout : Nat) + (cfg.P : Nat)) (cfg.formTime stx.s.p.hsa) n evs :=
+  two_cold_start hok hP100 G hG x y stx sty lx ly hGy hne hsync hv hstag evs n tl h hN hsx hsy hs
+
+/-! Non-vacuity: the two listening stations of `netL` (3 and 5, stamps 0 and 50 µs), both polled every 100 µs until
+5950 µs: station 3 claims at 4800 µs, sends its second token and the request to address 4, then polls address 5. -/
+open PV.C13 in
+theorem cs2L : CS2 cfgR netL 0 1 { s := sL3, apps := [], online := true } { s := sL5, apps := [], online := true } 0 50 := by
+  have hinv3 : Inv sL3 [] := by
+    have h := inv_new pR3 [] (by decide) (by decide) (by intro s hs; cases hs)
+    exact ⟨h.addr, h.hsa, h.ring, fun ho => by simp [sL3] at ho, h.gap, fun a ha => by simp [sL3] at ha,
+      fun a ha => by simp [sL3] at ha, h.app, fun a d ha => by simp [sL3] at ha, h.scripts, by simp [sL3]⟩
+  have hinv5 : Inv sL5 [] := by
+    have h := inv_new pR5 [] (by decide) (by decide) (by intro s hs; cases hs)
+    exact ⟨h.addr, h.hsa, h.ring, fun ho => by simp [sL5] at ho, h.gap, fun a ha => by simp [sL5] at ha,
+      fun a ha => by simp [sL5] at ha, h.app, fun a d ha => by simp [sL5] at ha, h.scripts, by simp [sL5]⟩
+  exact ⟨⟨rfl, rfl, (fun o ho => by cases ho), (fun o ho => by cases ho), by decide, by decide, rfl, rfl, rfl, hinv3, rfl, rfl,
+      rfl, rfl, rfl⟩, ⟨0, rfl⟩, rfl, rfl, rfl, by decide, by decide, by decide, ⟨rfl, rfl, hinv5, rfl, rfl, ⟨0, rfl⟩, rfl⟩,
+    by decide, rfl⟩
+
+def evsT : List (Nat × Int) := [(0, 100), (1, 150), (0, 200), (1, 250), (0, 300), (1, 350), (0, 400), (1, 450), (0, 500), (1, 550), (0, 600), (1, 650), (0, 700), (1, 750), (0, 800), (1, 850), (0, 900), (1, 950), (0, 1000), (1, 1050), (0, 1100), (1, 1150), (0, 1200), (1, 1250), (0, 1300), (1, 1350), (0, 1400), (1, 1450), (0, 1500), (1, 1550), (0, 1600), (1, 1650), (0, 1700), (1, 1750), (0, 1800), (1, 1850), (0, 1900), (1, 1950), (0, 2000), (1, 2050), (0, 2100), (1, 2150), (0, 2200), (1, 2250), (0, 2300), (1, 2350), (0, 2400), (1, 2450), (0, 2500), (1, 2550), (0, 2600), (1, 2650), (0, 2700), (1, 2750), (0, 2800), (1, 2850), (0, 2900), (1, 2950), (0, 3000), (1, 3050), (0, 3100), (1, 3150), (0, 3200), (1, 3250), (0, 3300), (1, 3350), (0, 3400), (1, 3450), (0, 3500), (1, 3550), (0, 3600), (1, 3650), (0, 3700), (1, 3750), (0, 3800), (1, 3850), (0, 3900), (1, 3950), (0, 4000), (1, 4050), (0, 4100), (1, 4150), (0, 4200), (1, 4250), (0, 4300), (1, 4350), (0, 4400), (1, 4450), (0, 4500), (1, 4550), (0, 4600), (1, 4650), (0, 4700), (1, 4750), (0, 4800), (1, 4850), (0, 4900), (1, 4950), (0, 5000), (1, 5050), (0, 5100), (1, 5150), (0, 5200), (1, 5250), (0, 5300), (1, 5350), (0, 5400), (1, 5450), (0, 5500), (1, 5550), (0, 5600), (1, 5650), (0, 5700), (1, 5750), (0, 5800), (1, 5850), (0, 5900), (1, 5950)]
+
+open PV.C13 in
+example : TwoRun 0 1 3 5 4800 4900 (cfgR.formTime 10) netL evsT :=
+  two_station_cold_start_until_polled cfgR cfgR_ok (by decide) 1000 (by decide) 0 1 { s := sL3, apps := [], online := true }
+    { s := sL5, apps := [], online := true } 0 50 (by decide) (by decide) (by decide) viewOne (by decide) evsT netL 50 cs2L rfl
+    (by decide) (by decide) (schedN_of_times _ _ _ _ (schedNT_of_b 100 2 evsT [0, 50] 50 (by decide)))
 
 end PV.C06
